@@ -225,6 +225,9 @@ fn perturb(r: &mut Rng, s: &Sh) -> Sh {
     }
 }
 
+/// a random well-formed message value in the shape language
+pub fn gen_value(r: &mut Rng, depth: u32) -> String { let mut g = G { r, names: 0 }; let (_, v, _) = g.gen(depth, true); v.show() }
+
 pub fn generate(thorough: bool, seed: u64, part: (usize, usize), em: &mut Emitter) {
     let mut r = Rng::new(seed ^ 0xC18);
     crate::props::per::generate_roundtrips(thorough, &mut r, part, em);
